@@ -7,7 +7,7 @@ from ..vm import Prog, expect_ok, expect_exc, lit_repr
 
 ID = "C14"
 LEVEL = "exploration"
-BUDGET = {"quick": 3000, "thorough": 300000}
+BUDGET = {"quick": 3000, "thorough": 900000}
 RULE = ("case = format string generated from the grammar (literal | %% | spec)*, spec = % flags* width? (.prec)? length? conv "
         "with conv in d i u o x X c s f F e E g G a A p $ (only flag/length combinations the C standard defines), specs at "
         "the very start/end and adjacent, literals over bytes 1..255 except '%', 0-8 arguments (Int full range, Float incl. "
